@@ -53,6 +53,7 @@ type cstate struct {
 	seqs     map[int]bool
 	held     []heldq
 	dead     bool
+	life     int // > 0: number of queries this connection answers; it closes right after the last reply
 }
 
 type heldq struct {
@@ -75,6 +76,12 @@ type world struct {
 	dialCount  atomic.Int64
 	seen       map[int]chan struct{}
 	nrep       int
+	// reply-then-close scripts (replyclose.go)
+	lifeFn      func() int            // life of each new connection (nil: unlimited)
+	late        string                // "" | "consumed" | "closed": what a replyThenClose Write waits for before it returns
+	errWithData bool                  // stream: the EOF comes with the reply's last byte
+	delivered   map[int]*fakenet.Conn // seq -> conn on which the reply was consumed by the client BEFORE the query's Write returned
+	lateStats   map[string]int64
 }
 
 func newWorld(stream bool) *world {
@@ -91,8 +98,12 @@ func (w *world) newConn() *fakenet.Conn {
 	if w.freshHold.Load() {
 		cs.mode = hold
 	}
+	if w.lifeFn != nil {
+		cs.life = w.lifeFn()
+	}
 	c := w.net.NewConnUser(w.stream, cs)
 	c.CloseDelay = w.closeDelay
+	c.ErrWithData = w.errWithData && w.stream
 	c.OnWrite = w.onWrite
 	c.OnWriteFail = w.onWriteFail
 	return c
@@ -120,6 +131,12 @@ func (w *world) onWrite(c *fakenet.Conn, data []byte) error {
 		cs.mu.Lock()
 		first := !cs.seqs[qi.Seq]
 		cs.seqs[qi.Seq] = true
+		if cs.life > 0 && cs.mode == good && !cs.dead {
+			cs.life--
+			if cs.life == 0 {
+				cs.mode = replyThenClose
+			}
+		}
 		mode := cs.mode
 		dead := cs.dead
 		switch mode {
@@ -154,8 +171,12 @@ func (w *world) onWrite(c *fakenet.Conn, data []byte) error {
 		case errOnQuery:
 			c.InjectErr(fakenet.ErrInjected)
 		case replyThenClose:
-			w.answer(c, qi)
-			c.InjectEOF()
+			if w.late != "" {
+				w.replyCloseLate(c, qi)
+			} else {
+				w.answer(c, qi)
+				c.InjectEOF()
+			}
 		}
 	}
 	return nil
@@ -192,6 +213,10 @@ func (w *world) onWriteFail(c *fakenet.Conn, data []byte, err error) {
 }
 
 func (w *world) answer(c *fakenet.Conn, qi dnsadv.QueryInfo) {
+	c.Inject(w.answerMsg(c, qi))
+}
+
+func (w *world) answerMsg(c *fakenet.Conn, qi dnsadv.QueryInfo) []byte {
 	w.mu.Lock()
 	w.nrep++
 	n := w.nrep
@@ -201,7 +226,7 @@ func (w *world) answer(c *fakenet.Conn, qi dnsadv.QueryInfo) {
 	if w.stream {
 		msg = wire.Frame(msg)
 	}
-	c.Inject(msg)
+	return msg
 }
 
 func (w *world) setMode(c *fakenet.Conn, m int) {
@@ -274,7 +299,10 @@ type scen struct {
 	Seed      int64  `json:"seed"`
 	Procs     int    `json:"gomaxprocs"`
 	Perturb   bool   `json:"perturb"`
-	CloseMs   int    `json:"close_delay_ms"` // Close() of a connection takes this long (slow close)
+	CloseMs   int    `json:"close_delay_ms"`                // Close() of a connection takes this long (slow close)
+	Late      string `json:"write_returns_after,omitempty"` // replyclose: the answered query's Write returns only after the client {consumed the reply, closed the connection}
+	MaxLife   int    `json:"max_conn_life,omitempty"`       // replyclose: every connection answers 1..MaxLife queries and closes right after the last reply
+	Together  bool   `json:"eof_with_data,omitempty"`       // replyclose: EOF delivered by the same Read as the reply's last byte
 }
 
 func (s scen) bound() int {
@@ -877,7 +905,7 @@ func main() {
 	poolsan.Install(func(r poolsan.Report) {
 		rep.Violation("poolsan-"+r.Kind, "buffer-pool sanitizer: "+r.Kind+": "+r.Info, map[string]any{"stack": r.Stack})
 	})
-	rep.SetRule("enumerated kill scripts: pool(warm n conns, poison k of them by {failing next write, EOF/read error instead of the next reply, close while idle}, then m concurrent probe calls, fresh connections good or also dying), in-flight(close a reused pipelined conn with k queries in flight), stream(long sequential/concurrent call streams with random sabotage between calls); one case = one judged call; non-trivial = a call that met at least one dead reused connection and was judged (retried to success, failed on fresh, or reached the bound); distinct by scenario+call")
+	rep.SetRule("enumerated kill scripts: pool(warm n conns, poison k of them by {failing next write, EOF/read error instead of the next reply, close while idle}, then m concurrent probe calls, fresh connections good or also dying), in-flight(close a reused pipelined conn with k queries in flight), stream(long sequential/concurrent call streams with random sabotage between calls), reply-then-close(sequential streams against a server whose connections answer 1..k queries and close right behind the last reply, the Write of that query returning only after the client consumed the reply / closed the connection: an answered query must neither fail nor be transmitted again); one case = one judged call; non-trivial = a call that met at least one dead reused connection and was judged (retried to success, failed on fresh, or reached the bound); distinct by scenario+call")
 	rep.Assume("attempts are counted by connection from the harness write log (UDP resends on one socket are one attempt)")
 	rep.Assume("'connection opened for the call' is approximated by 'connection created after the call started' (never stricter than mosdns' own isNewConn)")
 	rep.Assume("retry bound taken from the pinned implementation: 3 attempts pipelined, 4 non-pipelined; the statement's global bound 4 is checked separately")
@@ -899,6 +927,8 @@ func main() {
 				scriptInflight(c.Scenario)
 			case "dialfail":
 				scriptDialFail(c.Scenario)
+			case "replyclose":
+				scriptReplyClose(c.Scenario)
 			default:
 				scriptPool(c.Scenario)
 			}
@@ -908,11 +938,6 @@ func main() {
 
 	rng := rand.New(rand.NewSource(rep.Seed))
 	procs := []int{1, 2, 16}
-	type tl struct {
-		t      string
-		stream bool
-		L      int
-	}
 	tls := []tl{{"reuse", true, 1}, {"pipeline", true, 1}, {"pipeline", true, 2}, {"pipeline", false, 2}, {"pipeline", true, 8}}
 	var silentWg sync.WaitGroup
 	for _, x := range tls {
@@ -970,9 +995,10 @@ func main() {
 			}
 		}
 	}
+	runReplyClose(rng, tls, procs)
 	silentWg.Wait()
 	rep.Exhaustive(true)
-	rep.Extra("enumerated_space", "pool scripts: 5 transport shapes x warm 1..N conns x poison 0..warm x 4 kill kinds x probe counts {1,2,4} (+ dying fresh connections); in-flight: k=1..L+2; streams sampled")
+	rep.Extra("enumerated_space", "pool scripts: 5 transport shapes x warm 1..N conns x poison 0..warm x 4 kill kinds x probe counts {1,2,4} (+ dying fresh connections); in-flight: k=1..L+2; streams sampled; reply-then-close: 5 transport shapes x write returns after {reply consumed, conn closed} x conn life {1, 1..3} x EOF {after, together with} the reply, 40 calls each, repeated")
 	rep.Count("pool_scripts_enumerated", int64(n))
 	runtime.GOMAXPROCS(16)
 	sched.NoPerturb()
